@@ -1549,6 +1549,36 @@ def inline_new_module_constants(project, rec):
                 pass
             if _pure_constant_expr(v):
                 consts[k] = v
+        # a module-level object that anything in the module modifies (subscript / attribute store, mutating method,
+        # `global` re-binding, `out=`) is state, not a constant: it stays where it is
+        if consts:
+            from rsa.inplace import _MUT_METHODS, view_root
+
+            mutated = set()
+            for n in ast.walk(mod.tree):
+                if isinstance(n, (ast.Subscript, ast.Attribute)) and isinstance(n.ctx, (ast.Store, ast.Del)):
+                    root = view_root(n)
+                    if root:
+                        mutated.add(root)
+                elif isinstance(n, ast.AugAssign):
+                    root = view_root(n.target)
+                    if root:
+                        mutated.add(root)
+                elif isinstance(n, ast.Global):
+                    mutated.update(n.names)
+                elif isinstance(n, ast.Call):
+                    if isinstance(n.func, ast.Attribute) and n.func.attr in _MUT_METHODS | {"setdefault", "popitem", "add", "discard"}:
+                        root = view_root(n.func.value)
+                        if root:
+                            mutated.add(root)
+                    for k in n.keywords:
+                        if k.arg == "out":
+                            root = view_root(k.value)
+                            if root:
+                                mutated.add(root)
+            for k in list(consts):
+                if k in mutated:
+                    del consts[k]
         if not consts:
             continue
         # constants defined in terms of other new constants (`B = (*A, x)`): substitute transitively, then flatten
